@@ -67,6 +67,10 @@ AddDel(k, i) == [nm \in ChanNames |-> IF nm \in ChansOn(k) THEN Append(dels[nm],
 \* per-object bookkeeping that travels with a renamed collection
 Moved(m, k, k2, init) == [m EXCEPT ![k2] = m[k], ![k] = [i \in Ids |-> init]]
 
+\* RENAME removes every object of the source key from that key, and every object of an overwritten target
+LeftBy(k, k2, t) == [gone EXCEPT ![k]  = [i \in Ids |-> IF st.cols[k][i].p THEN [t |-> t, x |-> FALSE] ELSE gone[k][i]],
+                                 ![k2] = [i \in Ids |-> IF st.cols[k2][i].p THEN [t |-> t, x |-> FALSE] ELSE gone[k2][i]]]
+
 Rej(e, why, exp) == PrintT(<<"REJ", ToJson([sc |-> e.sc, line |-> l, why |-> why, exp |-> exp, e |-> e])>>)
 
 Bump(f) == [cnt EXCEPT ![f] = @ + 1]
@@ -94,7 +98,7 @@ Write(e) ==
         ELSE /\ now' = e.te /\ st' = res.S /\ log' = log \o res.lg /\ shadow' = ShFold(shadow, res.lg)
              /\ dels' = IF notif THEN AddDel(c.k, c.i) ELSE dels
              /\ gone' = IF isdel THEN [gone EXCEPT ![c.k][c.i] = [t |-> e.te, x |-> FALSE]]
-                        ELSE IF ren THEN Moved(gone, c.k, c.k2, [t |-> Never, x |-> FALSE]) ELSE gone
+                        ELSE IF ren THEN LeftBy(c.k, c.k2, e.te) ELSE gone
              /\ dur' = IF setsdl THEN [dur EXCEPT ![c.k][c.i] = IF e.ex >= 0 THEN e.ex ELSE 0]
                        ELSE IF ren THEN Moved(dur, c.k, c.k2, 0) ELSE dur
              /\ fdl' = IF setsdl THEN [fdl EXCEPT ![c.k][c.i] = IF e.ex >= 0 THEN e.tb + e.ex ELSE Never]
